@@ -185,6 +185,8 @@ VARIANTS = [
     V("combined labels taken from the sorted union instead of the reduction", ("C16",), "R-BLOCKLABELS", "core.py", '                results["intermediates"].append(*_results["intermediates"])\n                results["groups"] = _results["groups"]', '                results["intermediates"].append(*_results["intermediates"])\n                results["groups"] = np.broadcast_to(_find_unique_groups(x_chunk), _results["groups"].shape)', must_mention="_grouped_combine"),
     # ---------------- R-PAIRS[broadcast-nax] (C19, C08)
     V("size-1 codes broadcast only for multi-axis reductions", ("C19", "C08"), "R-PAIRS[broadcast-nax]", "core.py", '    order = "C"\n    if nax >= 1:\n', '    order = "C"\n    if nax > 1:\n', must_mention="nax > 1"),
+    # ---------------- R-KINDMISSING singleton-group clause (C10)
+    V("singleton-group shortcut hands NaN on for nancumsum", ("C10",), "R-KINDMISSING", "core.py", '        if agg.mode == "apply_binary_op":\n            # a NaN-skipping accumulation (nancumsum) of a lone NaN is the identity\n            array = np.where(isnull(array), agg.identity, array)\n', '', must_mention="singleton"),
     # ---------------- R-LOOPSTORE (C09, C19)
     V("cohort map overwrites a repeated block set", ("C09", "C19"), "R-LOOPSTORE", "core.py", '        merged_cohorts[chunk] = sorted(merged_cohorts.get(chunk, []) + cohort)', '        merged_cohorts[chunk] = cohort', must_mention="merged_cohorts"),
     V("twin: cohort map merges under an explicit membership test", ("C09", "C19", "C02"), "", "core.py", '        merged_cohorts[chunk] = sorted(merged_cohorts.get(chunk, []) + cohort)',
